@@ -8,6 +8,7 @@ the generator's injected rewrites is an open proof target backed by the correspo
 lists equal, in order, with positions) and the oracle.
 -/
 import Octave.Model.Canon
+import Octave.Lemmas.Step
 import Octave.Props.Facts
 namespace Octave.C07
 open Octave Lexer
@@ -30,19 +31,8 @@ theorem C07_pattern_step_receipt (env : Env) (lenient : Bool) (st : LState) (c :
       ∧ st'.toks = { type := m.type, value := m.value, line := st.line, col := st.col, normFrom := m.normFrom, raw := m.raw } :: st.toks
       ∧ st'.repairs = (match m.normFrom with
           | some o => Repair.normalization o m.value st.line st.col :: st.repairs
-          | none => st.repairs) := by
-  have hc' : (c == ' ') = false := by simpa using hc
-  refine ⟨{ st with
-      pos := st.pos + m.text.length, prev := m.text.getLast?.orElse (fun _ => st.prev),
-      line := (advancePos st.line st.col m.text).1, col := (advancePos st.line st.col m.text).2,
-      toks := { type := m.type, value := m.value, line := st.line, col := st.col, normFrom := m.normFrom, raw := m.raw } :: st.toks,
-      repairs := (match m.normFrom with
-          | some o => Repair.normalization o m.value st.line st.col :: st.repairs
-          | none => st.repairs),
-      stack := st.stack }, ?_, rfl, rfl⟩
-  unfold step
-  simp only [hspan, hc', hm, Bool.false_eq_true, if_false, bind, Except.bind]
-  rfl
+          | none => st.repairs) :=
+  pattern_step env lenient st c r m hspan hc hm hopen hnl
 
 /-- the `+` fallback (no pattern matches `+`): one SYNTHESIS token normalised from "+", one receipt. -/
 example : (match Lexer.tokenize Env.ascii "A+B".toList with
